@@ -418,6 +418,8 @@ func TestFixedSpecs(t *testing.T) {
 		"grammar seq_b;\nstart = \"a+\" \"b\";\n",
 		"grammar seq_c;\nstart = \"[0-9]+\" \"x?\";\n",
 		"grammar seq_d;\nNUM = /[0-9]+/\nOPT = /x?y/\nstart = NUM OPT;\n",
+		// a token that owns no state of the automaton (every text it matches is a string literal) among several others
+		"grammar g;\nKW = /if|fi/\nID = /[a-z][a-z]+x/\nNUM = /[0-9]+/\nSTR = $STRING\nstart = { KW | \"if\" | \"fi\" | ID | NUM | STR | \"+\" | \"-\" };\n",
 		// a pattern that is meaningless in a well-formed prefix and unparsable as a whole, as the last pattern
 		"grammar g;\nID = /[a-z]+/\nINT = /[0-9a-z_-]/\nstart = ID INT;\n",
 		"grammar g;\nAA = /x{3,1})/\nstart = AA \"y\";\n",
